@@ -432,10 +432,18 @@ pub fn run_case(tape: &mut Tape, _tier: Tier, _p: &CaseParams) -> CaseOutcome {
   let lossy = tape.draw(Stream::Faults, 3) == 2;
   let salt = tape.draw(Stream::Faults, u32::MAX) as u64;
   // pre-generate the worlds and schedules of the history
+  let mut extra_import = extra_import;
   let mut worlds = vec![world_of(&pkgs, extra_import)];
   let mut labels = vec!["initial".to_string()];
   for _ in 1..len {
-    let l = apply_edit(tape, &mut pkgs);
+    // an edit of the (non-package) root: whether it imports the dependency
+    // package directly or only reaches it through the first package
+    let l = if two && tape.draw(Stream::World, 5) == 4 {
+      extra_import = !extra_import;
+      format!("root: direct import of @c/d {}", if extra_import { "added" } else { "removed" })
+    } else {
+      apply_edit(tape, &mut pkgs)
+    };
     worlds.push(world_of(&pkgs, extra_import));
     labels.push(l);
   }
